@@ -430,7 +430,7 @@ func c09escape(p *Program, r *Report, rule string) {
 					if !ok && fname == "mu.lock" {
 						for _, st := range x.States {
 							if u, isU := st.Chan.(*ssa.UnOp); isU {
-								if fa, isFA := u.X.(*ssa.FieldAddr); isFA && fieldOf(fa).Name() == "closed" {
+								if fa, isFA := u.X.(*ssa.FieldAddr); isFA && fieldName(fieldOf(fa)) == "closed" {
 									ok, why = true, "case <-m.c.closed"
 								}
 							}
@@ -457,7 +457,7 @@ func c09escape(p *Program, r *Report, rule string) {
 func isTimerC(v ssa.Value) bool {
 	if u, ok := v.(*ssa.UnOp); ok && u.Op == token.MUL {
 		if fa, ok := u.X.(*ssa.FieldAddr); ok {
-			return typeShort(fa.X.Type()) == "Timer" && fieldOf(fa).Name() == "C"
+			return typeShort(fa.X.Type()) == "Timer" && fieldName(fieldOf(fa)) == "C"
 		}
 	}
 	return false
